@@ -73,6 +73,9 @@ func (msg *MsgUpdateSubDistributorParam) ValidateBasic() error {
 		return govtypes.ErrInvalidSigner
 	}
 
+	if msg.SubDistributor == nil {
+		return errors.Wrapf(govtypes.ErrInvalidProposalContent, "validation error: sub distributor cannot be nil")
+	}
 	if err := msg.SubDistributor.Validate(); err != nil {
 		return errors.Wrapf(govtypes.ErrInvalidProposalContent, "validation error: %s", err)
 	}
